@@ -181,7 +181,9 @@ pub fn replay(case: &Value) -> Result<Verdict, String> {
 pub fn option() -> BoxedStrategy<Glob> {
     prop_oneof![
         4 => Just(Glob::Depth),
-        6 => gen::count_u32().prop_map(Glob::Threads),
+        4 => gen::count_u32().prop_map(Glob::Threads),
+        // a tiny value set so that a value comes back after being overridden (A, B, A)
+        3 => prop::sample::select(vec![2u32, 4, 8]).prop_map(Glob::Threads),
         1 => prop_oneof![(0u32..100).prop_map(Glob::MaxDepth), (0u32..100).prop_map(Glob::MinDepth)],
     ]
     .boxed()
@@ -192,6 +194,7 @@ pub fn run(ctx: &Ctx) -> Report {
     let shards = 16;
     let total = run_shards(shards, |shard| {
         let mut st = Stats::new();
+        poison_parses(40);
         let leaf = prop_oneof![6 => gen::supported_leaf(), 1 => gen::text_leaf(), 3 => option().prop_map(E::G)];
         let strat = (
             prop_oneof![4 => proptest::collection::vec(option(), 0..4), 1 => proptest::collection::vec(option(), 4..10)],
